@@ -26,9 +26,9 @@ LEVEL_TEXT = ("The group-axiom part is exhaustive over the elements and all pair
               "rotated and displaced grains.")
 LEVEL_NOTE = ("Trusts the harness B matrix and the table of proper point group orders; conforming cell classes are listed in the module. "
               "At an exact trace tie the maximum is not unique and find_uniq_u keeps whichever tied member it meets first, so 'same "
-              "matrix for every orbit member' is not decided there (only membership). find_uniq_hkls ranks by (h*1000+k)*1000+l, "
-              "which is one-to-one only while every index of the orbit is below 500 in magnitude: hkl beyond that are decided only "
-              "when VERIF_PENDING_C16_HKL500 is set (ties at the maximum exist for hexagonal/trigonal at |l| = 500). "
+              "matrix for every orbit member' is not decided there (only membership). find_uniq_hkls is documented for |h| < 1000; the pinned "
+              "ranking (h*1000+k)*1000+l was one-to-one only below 500 (ties for hexagonal/trigonal at |l| = 500), repaired in "
+              "/repo, and the whole documented range is part of the workload. "
               "point_by_point.idxpoint (needs a full indexing run) is not driven.")
 
 RULE = ("group part: one case per (group, element pair); reduction part: a case = (group, cell, rotation); non-trivial = group of "
@@ -333,8 +333,9 @@ def reduction_extra(run, sym_u, name, ops, seed, idx):
         if not np.array_equal(sym_u.find_uniq_hkls(o @ hk.astype(float), grp, func=f2), bf):
             V("find_uniq_hkls:func:orbit-dependent:" + name, "func=<other order>: reduction of g.hkl differs from reduction of hkl")
             break
-    # ---- pending: indices of 500 and more (still inside the documented |h| < hmax = 1000)
-    if os.environ.get("VERIF_PENDING_C16_HKL500"):
+    # ---- indices of 500 and more (still inside the documented |h| < hmax = 1000; the pinned ranking was not one to one
+    #      there, repaired in /repo)
+    if True:
         big = r.integers(-999, 1000, (3, 400)).astype(float)
         big[2, ::2] = r.choice([500.0, -500.0], 200)
         big[0, 0::4] = -999
